@@ -77,6 +77,22 @@ package types
 //@ ensures err == nil ==> 1 <= m.MinCount && m.MinCount <= m.AskCount && bech32ok(m.Sender)
 //@ ensures err == nil ==> len(m.ClientID) <= MaxClientIDLength && 1 <= m.PrepareGas && 1 <= m.ExecuteGas
 
+// the same bounds for a request that arrives as an IBC packet (OnRecvPacket validates it with this function before
+// PrepareRequest runs): a cross-chain request with min_count 0 could never resolve either
+//@ func (p OracleRequestPacketData) ValidateBasic
+//@ ensures err == nil ==> 1 <= p.MinCount && p.MinCount <= p.AskCount
+//@ ensures err == nil ==> len(p.ClientID) <= MaxClientIDLength && 1 <= p.PrepareGas && 1 <= p.ExecuteGas
+// (the bound on PrepareGas + ExecuteGas is not stated: the uint64 sum wraps for ExecuteGas near 2^64, which the gas
+// meter catches later - ConsumeGas(ExecuteGas) in PrepareRequest fails the transaction - and C01 says nothing about gas)
+
+// C01: the response packet that reports a resolved request to the requesting chain carries each argument in the field
+// of its name (request and resolve time are both int64: the type checker cannot tell them apart)
+//@ func NewOracleResponsePacketData
+// (a parameter is called "result", so the unnamed result is "ret")
+//@ ensures ret.ClientID == clientID && ret.RequestID == requestID && ret.AnsCount == ansCount
+//@ ensures ret.RequestTime == requestTime && ret.ResolveTime == resolveTime
+//@ ensures ret.ResolveStatus == resolveStatus && ret.Result == result
+
 // the environment object handed to the VM for the execution phase (maps of reports by validator and external id: not
 // modelled); it starts without return data
 //@ func NewExecuteEnv
